@@ -14,7 +14,7 @@ SPEC = {
          "eval": "fun c => let '(l, r, h) := c in check_law l r h", "per_shard": 1000},
     ],
     "classes": {1: "abstract-policy-ignored"},
-    "n_quick": 400, "n_thorough": 6000,
+    "n_quick": 400, "n_thorough": 1600,
     "level": "proof",
     "what_violation": "cache policy looser than contained data / differs from the verified combination",
     "rule": ("documents generated from generated (injected registry) and derive-built schemas, strict and fast "
